@@ -306,10 +306,12 @@
   (bag-product! n (bag-copy bag)))
 
 (define (bag-product! n bag)
-  (for-each
-   (lambda (elt)
-     (hash-table-update! (bag-table bag) elt (lambda (count) (* n count))))
-   (hash-table-keys (bag-table bag)))
+  (if (zero? n)
+      (hash-table-clear! (bag-table bag))
+      (for-each
+       (lambda (elt)
+         (hash-table-update! (bag-table bag) elt (lambda (count) (* n count))))
+       (hash-table-keys (bag-table bag))))
   bag)
 
 (define (bag-unique-size bag)
